@@ -114,6 +114,24 @@ def vectors(spec: NetSpec, d: int, bases=(0, 1), negatives=False):
                                with_value(with_value(base, c1, x1), c2, x2))
 
 
+def extreme_vectors(spec: NetSpec):
+    """Global boundary states: standstill (all speeds 0), empty road (all densities 0), both, and everything at
+    its maximum density - the states in which whole sums (node inflows, first-segment densities) vanish."""
+    out = []
+    for b in (0, 1):
+        base = base_vector(spec, b)
+        for name, f in (("standstill", lambda k, x, l: 0.0 if k[1] == "v" else x),
+                        ("empty", lambda k, x, l: 0.0 if k[1] == "rho" else x),
+                        ("empty-standstill-no-demand", lambda k, x, l: 0.0 if k[1] in ("rho", "v", "w", "d") else x),
+                        ("jam", lambda k, x, l: l.rho_max if (k[1] == "rho" and l is not None) else x)):
+            v = {}
+            for k, lst in base.items():
+                l = spec.links[int(k[0][1:])] if k[0].startswith("L") else None
+                v[k] = [f(k, x, l) for x in lst]
+            out.append((f"base{b}:{name}", v))
+    return out
+
+
 def local_products(spec: NetSpec, cone, base=0, negatives=False):
     """Full Cartesian product of the alphabets of the scalars in `cone` (<= 8 of them)."""
     basev = base_vector(spec, base)
